@@ -55,7 +55,9 @@ def generate(rng, n, tier="quick"):
         ops.append(dict(call, op="render", reg=0, data=d))             # fault-free
         cap = 60 if tier == "quick" else 200
         for k in range(cap):
-            ops.append(dict(call, op="render", reg=0, data=d, fail_at=k))
+            # what the writer's io::Error is made of varies with k: a kind and a message, a bare kind, a raw OS error, an error whose
+            # payload is itself an error (a RenderError, an io::Error) – whatever it carries, it is the IO error of the writer
+            ops.append(dict(call, op="render", reg=0, data=d, fail_at=k, fault=["msg", "rerr", "kind", "os", "wrapped"][(k + i) % 5]))
         # short-write writers: accept at most m bytes per call and never fail – the render is the fault-free render
         shorts = [1, 2, 3, 7]
         for m in shorts:
